@@ -372,11 +372,13 @@ void ThreadPool::threadProc(ThreadToken thread_token)
         std::unique_lock<std::mutex> lk(d_->lock);
 
         auto t = d_->threads_cabinet.free(thread_token);
-        TBOX_ASSERT(t != nullptr);
-        d_->wp_loop->runInLoop(
-            [t]{ t->join(); delete t; },
-            "ThreadPool::threadProc, join and delete it"
-        );
+        //! 为空说明 cleanup() 已经把本线程对象取走并会负责 join()，这里不能再委托
+        if (t != nullptr) {
+            d_->wp_loop->runInLoop(
+                [t]{ t->join(); delete t; },
+                "ThreadPool::threadProc, join and delete it"
+            );
+        }
         //! 这个操作放到最后来做是为了减少主线程join()的等待时长
     }
 }
